@@ -771,6 +771,8 @@ def err_class(e: BaseException) -> str:
     if type(e).__name__ in ('KeyValError', 'TokenSyntaxError'):
         return type(e).__name__ + ':exported text is not valid keyvalues syntax'
     msg = str(e)
+    if msg.startswith('Bad output value'):
+        return f'{type(e).__name__}:Bad output value'
     msg = re.sub(r'"[^"]*"', '"…"', msg)
     msg = re.sub(r"'[^']*'", "'…'", msg)
     msg = re.sub(r'-?\d+(\.\d+)?', 'N', msg)
